@@ -30,6 +30,8 @@ def payloads(secret, big):
         'parameter': f'<!DOCTYPE r [<!ENTITY % p SYSTEM "file://{secret}"> %p;]><r>ok</r>',
         'unparsed': '<!DOCTYPE r [<!NOTATION n SYSTEM "n"><!ENTITY u SYSTEM "u.bin" NDATA n>]><r>ok</r>',
         'ext-subset': f'<!DOCTYPE r SYSTEM "file://{secret}"><r>ok</r>',
+        'ext-subset-standalone': f'<?xml version="1.0" standalone="yes"?><!DOCTYPE r SYSTEM "file://{secret}"><r>ok</r>',
+        'ext-subset-public': f'<?xml version="1.0" standalone="no"?><!DOCTYPE r PUBLIC "-//V//T" "file://{secret}"><r>ok</r>',
         'nested': '<!DOCTYPE r [<!ENTITY a "x"><!ENTITY b "&a;&a;">]><r>&b;</r>',
         'late-comment': '<?xml version="1.0"?><!-- c --><!DOCTYPE r [<!ENTITY a "EXPANDED">]><r>&a;</r>',
         'prolog-60k': '<?xml version="1.0"?><!--' + 'c' * big + '--><!DOCTYPE r [<!ENTITY a "EXPANDED">]><r>&a;</r>',
